@@ -105,8 +105,9 @@ def job(arg):
 
     with numpy.errstate(all="ignore"):
         for _ in range(count):
-            tname = ["float32", "float64"][int(rng.integers(0, 2))]
-            t = getattr(numpy, tname)
+            tname = ["float32", "float64", "float"][int(rng.integers(0, 3))]
+            t = getattr(numpy, tname) if tname != "float" else float  # "float": the untyped context, Python target
+            tgt = targets.numpy if tname != "float" else targets.python
             wide = tname == "float64"
             nsym = int(rng.integers(1, 4))
             names = NAMES[:nsym]
@@ -121,8 +122,11 @@ def job(arg):
             n[tname] = n.get(tname, 0) + 1
             try:
                 ctx = fa.Context(paths=[fa.algorithms])
+                if tname == "float" and any(k in ("upcast_downcast", "downcast_upcast") for k, _ in plan):
+                    n[tname] -= 1
+                    continue  # casts need sized types
                 g = ctx.trace(f, *([t] * nsym))
-                f1 = targets.numpy.as_function(g, debug=0)
+                f1 = tgt.as_function(g, debug=0) if tname != "float" else tgt.as_function(g)
             except NotImplementedError:
                 n[tname] -= 1
                 continue
@@ -130,12 +134,12 @@ def job(arg):
                 n[tname] -= 1
                 continue  # the un-rewritten graph is C05's business
             try:
-                g2 = g.rewrite(targets.numpy, fa.rewrite)
-                f2 = targets.numpy.as_function(g2, debug=0)
+                g2 = g.rewrite(tgt, fa.rewrite)
+                f2 = tgt.as_function(g2, debug=0) if tname != "float" else tgt.as_function(g2)
             except Exception as e:
                 rec(tname, what="rewriting / printing the rewritten graph raised %r" % (e,), graph=desc)
                 continue
-            tiny = float(numpy.finfo(t).smallest_normal)
+            tiny = float(numpy.finfo(t if tname != "float" else numpy.float64).smallest_normal)
             for k in range(8):
                 xs = [t(GRID[int(rng.integers(0, len(GRID)))]) for _ in range(nsym)]
                 try:
@@ -157,7 +161,7 @@ def job(arg):
                     break
                 a_, b_ = numpy.asarray(a), numpy.asarray(b)
                 same = bool(a_ == b_) if not (numpy.isnan(a_) and numpy.isnan(b_)) else True
-                if not same or a_.dtype != b_.dtype:
+                if not same or (tname != "float" and a_.dtype != b_.dtype):
                     rec(tname, what="original %r, rewritten %r" % (a, b), graph=desc, inputs=[repr(v) for v in xs])
                     break
     return n, fails
@@ -173,7 +177,7 @@ def run(rep, tier, prop="C04"):
                 seen[k] = seen.get(k, 0) + v
             for k, lst in fails.items():
                 agg.setdefault(k, []).extend(lst)
-    for key in ("float32", "float64"):
+    for key in ("float32", "float64", "float"):
         lst = agg.get(key, [])
         rep.add(core.decided("%s/bounded/rewrite-preserves-value/%s" % (prop, key), prop, not lst and seen.get(key, 0) > 0, functions=("rewrite.Rewriter", "expr.Expr.rewrite"), text="bounded stand-in: %d random graphs rewritten, both versions executed" % seen.get(key, 0), detail=dict(failures=lst[:3], graphs=seen.get(key, 0)), kind="bounded", solver="native-run", meta=dict(part="bounded", fails=lst[:3], key=key)))
     rep.bounded.append(dict(what="random graphs over the kinds of the statement (incl. up/downcast chains, mixed int/float constants, nested selects with combined conditions) rewritten by the real rewrite module after the NumPy target's pass; original and rewritten graph executed through the NumPy printer and compared wherever no node of the original is NaN, infinite or subnormal", bound="%d seeded graphs of 2..8 operation nodes over 1..3 symbols, float32 and float64, 8 input points each" % per, counted_as_proved=False))
